@@ -3,6 +3,7 @@ open Nanite.C20
 #print axioms c20_one_object_per_curve
 #print axioms c20_file_order
 #print axioms c20_append_precondition
+#print axioms c20_refused_leaves_group
 #print axioms c20_progress_monotone
 #print axioms c20_progress_ends_at_one
 #print axioms c20_pixel_value
